@@ -70,6 +70,26 @@ def programs():
     out["if-in-empty-named-scopes"] = pre + [("scope", "na", [("scope", "nb", [("if", "c - d", [R(".db 1")], [R(".db 2")]), ("for", "i", "a", "b", [R(".db i")])])])] + post
     out["if-in-loop-in-empty-block"] = pre + [R("kk := 1"), ("block", [("block", [("for", "i", "0", "2", [("block", [("if", "kk", [R(".db 1")], [R(".db 2")]), ("if", "c", [R(".db 3")], None)])])])])] + post
     out["else-definitions-visible-after"] = pre + [("if", "c", [R("x = 1"), R("la:"), R(".db 1")], [R("x = 2"), R(".db 9"), R("la:"), R(".db 2")]), R(".dl la"), R(".db x"), ("block", [R(".dl la"), R(".db x")])] + post
+    # programs of realistic size: macros applying macros inside loops with symbolic bounds, conditionals choosing
+    # between `*=` blocks, named-scope exports used across them, forward references
+    store = ("macrodef", "store", ["addr", "val"], [R("lda.w #val"), R("sta.l addr")])
+    fill = ("macrodef", "fill", ["base", "n"], [("for", "i", "0", "n", [("call", "store", [("expr", "base + i * 2"), ("expr", "i")]), ("if", "i - 1", [], [R(".db 0x11")])])])
+    out["composite/table-builder"] = pre + [
+        store, fill,
+        ("scope", "gfx", [R("init:"), ("call", "fill", [("expr", "0x7e2000"), ("expr", "b2")]), R("rts"), R("table:"),
+                          ("for", "j", "0", "a2", [R(".dw table + j * 2"), ("if", "j & 1", [R(".db 0xAA")], None)]), R("done:")]),
+        ("if", "c", [R("*= p + 0x800"), R("alt:"), R(".dl gfx.table, alt")], [R(".dl gfx.done")]),
+        ("call", "fill", [("expr", "0x7e3000"), ("expr", "2")]), R(".dl gfx.init, end"),
+    ] + post
+    out["composite/conditional-blocks"] = pre + [
+        R("mode := c & 3"), store,
+        ("for", "k", "0", "3", [("if", "k - mode", [("call", "store", [("expr", "0x7e0000 + k"), ("expr", "k")])], [R("*= p + 0x400 + k * 0x20"), R("sel:"), R(".dl sel"), ("call", "store", [("expr", "sel"), ("expr", "v")])])]),
+        ("if", "mode - 3", [("scope", "tail", [R("t0:"), R(".dw v"), ("for", "q", "0", "b2", [R(".db q")]), R("t1:")]), R(".dl tail.t0, tail.t1")], [R(".db 0x33")]),
+    ] + post
+    # a named scope in a loop body: its exports belong to the iteration
+    out["for-named-scope-in-body"] = pre + [("for", "i", "0", "b2", [("scope", "row", [R("cell:"), R(".db i"), R("rend:")]), R(".dl row.cell, row.rend")]), R("after:"), R(".dl after")] + post
+    out["for-named-scope-in-macro-in-body"] = pre + [("macrodef", "mkrow", ["x"], [("scope", "row", [R("cell:"), R(".db x")]), R(".dl row.cell")]),
+                                                      ("for", "i", "0", "3", [("call", "mkrow", [("expr", "i")]), ("if", "i & 1", [("scope", "odd", [R("o:"), R(".db v")]), R(".dl odd.o")], None)])] + post
     out["for-empty-then-code"] = pre + [("for", "i", "3", "b2", [R(".db i")]), R(".db 0x55")] + post
     return out
 
